@@ -27,6 +27,10 @@ def const_model(m, s):
         if mm.group(4) == 'MAX':
             return mk_int(ty, (1 << (bits - 1)) - 1 if is_signed(ty) else (1 << bits) - 1)
         return mk_int(ty, -(1 << (bits - 1)) if is_signed(ty) else 0)
+    mm = re.search(r'Scalar>::(ZERO|ONE|TWO|THREE|FOUR|FIVE|SIX|HALF)$', s)
+    if mm:
+        # lyon_geom's generic Scalar constants; mina instantiates CubicBezierSegment only at f32
+        return Sc('f32', z3.FPVal({'ZERO': 0.0, 'ONE': 1.0, 'TWO': 2.0, 'THREE': 3.0, 'FOUR': 4.0, 'FIVE': 5.0, 'SIX': 6.0, 'HALF': 0.5}[mm.group(1)], F32))
     if 'Lazy::<' in s and s.endswith('::INIT'):
         return Agg('Lazy', [])
     if s.endswith('PhantomData') or 'PhantomData::<' in s:
@@ -958,6 +962,11 @@ def enum_map_default(m, callee):
 @_m(PATH_MODELS, ('EnumMap', 'default'))
 def _enum_map_default(m, q, args, callee):
     return enum_map_default(m, callee)
+
+
+@_m(PATH_MODELS, ('Point2D', 'new'))
+def _point_new(m, q, args, callee):
+    return Agg('Point2D', [args[0], args[1], Agg('PhantomData', [])])
 
 
 # ---- mem / misc
